@@ -49,6 +49,9 @@ def cases(draw, tier="quick"):
             off = draw(st.sampled_from([0, 0, 1, -1, c["latency_us"], c["latency_us"] + 1])) if gi > 0 else 0
             obs.append([gi, off, [draw(st.floats(-3, 3)) for _ in range(nfeat)]])
         c["obs"] = obs
+    elif draw(st.sampled_from([False, False, True])):
+        # a state given as a list of Feature objects: a rolling feature (saved or not) and one without event callbacks
+        c["state"] = ["features", draw(st.booleans())]
     # folds / warm-up / markov reset
     if draw(st.sampled_from([False, False, True])):
         g = E.grid_of(c)
@@ -156,6 +159,13 @@ def run(case):
     t1, end1 = E.run_episode(b1.env, case["actions"], fold=E.fold_name(case), action_kind=kind)
     t2, end2 = E.run_episode(b2.env, case["actions"], fold=E.fold_name(case), action_kind=kind)
     cut = case["cut"]
+    for tr_ in (t1, t2):
+        for idx, snap in enumerate(tr_):
+            if isinstance(snap, dict) and snap.get("mutated_after_return"):
+                res.fail("the observation returned by call %d changed after it was returned, when later events arrived: %s" % (idx, str(snap["obs"])[:200]))
+                break
+        if res.violations:
+            break
     upto = cut + 1            # trace[0] is the reset (timestep 0), trace[j] the step landing on steps[j]
     traded_before = False
     for j in range(min(upto, len(t1), len(t2))):
@@ -192,6 +202,8 @@ def run(case):
         res.tag("delay>0")
     if case.get("state", ["rec"])[0] == "window":
         res.tag("windowed-observation-state")
+    if case.get("state", ["rec"])[0] == "features":
+        res.tag("state-given-as-features" + ("" if case["state"][1] else "-unsaved"))
     if case.get("fold"):
         res.tag("fold")
     if case.get("markov"):
